@@ -13,6 +13,9 @@ use std::sync::atomic::{AtomicUsize, Ordering};
 use std::sync::{Arc, Mutex};
 use uuid::Uuid;
 
+/// number of adapter calls currently blocked on the gate (one scenario runs at a time)
+pub static WAITING: AtomicUsize = AtomicUsize::new(0);
+
 /// (bytes the server had written when the call happened, canonical call text)
 pub type Log = Arc<Mutex<Vec<(usize, String)>>>;
 
@@ -96,21 +99,27 @@ impl AuthenticationAdapter for MAuth {
 impl DiscoveryAdapter for MDisc {
     async fn discover(&self) -> passage_adapters::Result<Vec<Target>> {
         push(&self.log, &self.w, "call:discover".into());
+        WAITING.fetch_add(1, Ordering::SeqCst);
         self.gate.acquire().await.unwrap().forget();
+        WAITING.fetch_sub(1, Ordering::SeqCst);
         self.v.discover.clone().map(|l| l.iter().map(|i| self.v.targets[*i].clone()).collect()).map_err(|()| err())
     }
 }
 impl FilterAdapter for MFilt {
     async fn filter(&self, client_addr: &SocketAddr, server_addr: (&str, u16), protocol: Protocol, user: (&str, &Uuid), targets: Vec<Target>) -> passage_adapters::Result<Vec<Target>> {
         push(&self.log, &self.w, format!("call:filter:{}:{}:{}:{}", ctx(client_addr, server_addr, protocol), hex(user.0.as_bytes()), user.1.as_u128(), tids(&targets)));
+        WAITING.fetch_add(1, Ordering::SeqCst);
         self.gate.acquire().await.unwrap().forget();
+        WAITING.fetch_sub(1, Ordering::SeqCst);
         self.v.filter.clone().map(|l| l.iter().map(|i| self.v.targets[*i].clone()).collect()).map_err(|()| err())
     }
 }
 impl StrategyAdapter for MStrat {
     async fn select(&self, client_addr: &SocketAddr, server_addr: (&str, u16), protocol: Protocol, user: (&str, &Uuid), targets: Vec<Target>) -> passage_adapters::Result<Option<Target>> {
         push(&self.log, &self.w, format!("call:select:{}:{}:{}:{}", ctx(client_addr, server_addr, protocol), hex(user.0.as_bytes()), user.1.as_u128(), tids(&targets)));
+        WAITING.fetch_add(1, Ordering::SeqCst);
         self.gate.acquire().await.unwrap().forget();
+        WAITING.fetch_sub(1, Ordering::SeqCst);
         self.v.select.clone().map(|o| o.map(|i| self.v.targets[i].clone())).map_err(|()| err())
     }
 }
